@@ -199,7 +199,7 @@ func (env *ExecEnv) expandTilde(f *field, s string, word ast.Word, mode ExpMode)
 			col = 0
 		} else {
 			if runtime.GOOS == "windows" {
-				if w, ok := word[off].(*ast.Quote); ok && w.Tok == `\` && w.Value[0].(*ast.Lit).Value == `\` {
+				if w, ok := word[off].(*ast.Quote); ok && w.Tok == `\` && len(w.Value) != 0 && w.Value[0].(*ast.Lit).Value == `\` {
 					break
 				}
 			}
